@@ -116,9 +116,9 @@ Proof.
   - destruct (n =? 0); cbn [fst]; [apply frame_refl | apply IH].
 Qed.
 
-Lemma history_forward_frame c s n : frame s (history_forward c s n).
+Lemma history_forward_pos_frame c s n : frame s (history_forward_pos c s n).
 Proof.
-  unfold history_forward.
+  unfold history_forward_pos.
   pose proof (nav_loop_frame c (range_up (wi (set_history_search s) + 1) (len (wl (set_history_search s))))
                 (set_history_search s) n false) as H.
   destruct (nav_loop _ _ _ _ _) as [s1 found]; cbn [fst] in H.
@@ -128,14 +128,26 @@ Proof.
   eapply frame_trans; apply set_cursor_frame.
 Qed.
 
-Lemma history_backward_frame c s n : frame s (history_backward c s n).
+Lemma history_backward_pos_frame c s n : frame s (history_backward_pos c s n).
 Proof.
-  unfold history_backward.
+  unfold history_backward_pos.
   pose proof (nav_loop_frame c (range_down (wi (set_history_search s) - 1)) (set_history_search s) n false) as H.
   destruct (nav_loop _ _ _ _ _) as [s1 found]; cbn [fst] in H.
   eapply frame_trans; [apply set_history_search_frame|].
   eapply frame_trans; [apply H|].
   destruct found; [apply set_cursor_frame | apply frame_refl].
+Qed.
+
+Lemma history_forward_frame c s n : frame s (history_forward c s n).
+Proof.
+  unfold history_forward. destruct (n =? 0); [apply frame_refl|].
+  destruct (n <? 0); [apply history_backward_pos_frame | apply history_forward_pos_frame].
+Qed.
+
+Lemma history_backward_frame c s n : frame s (history_backward c s n).
+Proof.
+  unfold history_backward. destruct (n =? 0); [apply frame_refl|].
+  destruct (n <? 0); [apply history_forward_pos_frame | apply history_backward_pos_frame].
 Qed.
 
 Lemma go_to_history_frame c s i : frame s (go_to_history c s i).
@@ -153,35 +165,33 @@ Qed.
 Lemma set_pref_frame s v : frame s (set_pref s v).
 Proof. unfold frame; proj; auto. Qed.
 
-Lemma cursor_up_frame s n s' : cursor_up s n = Some s' -> frame s s'.
+Lemma cursor_up_frame s n : frame s (cursor_up s n).
 Proof.
-  unfold cursor_up. destruct (n <? 1); [discriminate|]. intros H; inversion H; subst.
-  eapply frame_trans; [apply set_cursor_frame | apply set_pref_frame].
+  unfold cursor_up. eapply frame_trans; [apply set_cursor_frame | apply set_pref_frame].
 Qed.
 
-Lemma cursor_down_frame s n s' : cursor_down s n = Some s' -> frame s s'.
+Lemma cursor_down_frame s n : frame s (cursor_down s n).
 Proof.
-  unfold cursor_down. destruct (n <? 1); [discriminate|]. intros H; inversion H; subst.
-  eapply frame_trans; [apply set_cursor_frame | apply set_pref_frame].
+  unfold cursor_down. eapply frame_trans; [apply set_cursor_frame | apply set_pref_frame].
 Qed.
 
 Lemma go_start_of_line_frame s : frame s (go_start_of_line s).
 Proof. apply set_cursor_frame. Qed.
 
-Lemma auto_up_frame c s n g s' : auto_up c s n g = Some s' -> frame s s'.
+Lemma auto_up_frame c s n g : frame s (auto_up c s n g).
 Proof.
   unfold auto_up. destruct (0 <? _).
   - apply cursor_up_frame.
-  - intros H; inversion H; subst. destruct g.
+  - destruct g.
     + eapply frame_trans; [apply history_backward_frame | apply go_start_of_line_frame].
     + apply history_backward_frame.
 Qed.
 
-Lemma auto_down_frame c s n g s' : auto_down c s n g = Some s' -> frame s s'.
+Lemma auto_down_frame c s n g : frame s (auto_down c s n g).
 Proof.
   unfold auto_down. destruct (_ <? _).
   - apply cursor_down_frame.
-  - intros H; inversion H; subst. destruct g.
+  - destruct g.
     + eapply frame_trans; [apply history_forward_frame | apply go_start_of_line_frame].
     + apply history_forward_frame.
 Qed.
@@ -270,16 +280,14 @@ Definition is_pop (o : op) : Prop :=
 (* navigation: working lines, history object, loader untouched *)
 Lemma nav_core_frame c s o : is_nav o -> frame s (snd (fst (step_core c s o))).
 Proof.
-  destruct o; cbn [is_nav]; intros H; try contradiction; cbn [step_core ok fst snd of_opt].
+  destruct o; cbn [is_nav]; intros H; try contradiction; cbn [step_core ok fst snd].
   - apply history_backward_frame.
   - apply history_forward_frame.
   - destruct (i <? - len (wl s)); cbn [fst snd ok].
     + unfold frame; proj; auto.
     + apply go_to_history_frame.
-  - destruct (auto_up c s n gts) eqn:E; cbn [of_opt ok fst snd];
-      [eapply auto_up_frame; eauto | apply frame_refl].
-  - destruct (auto_down c s n gts) eqn:E; cbn [of_opt ok fst snd];
-      [eapply auto_down_frame; eauto | apply frame_refl].
+  - apply auto_up_frame.
+  - apply auto_down_frame.
   - apply end_of_history_frame.
   - apply set_cursor_frame.
   - apply set_cursor_frame.
@@ -410,9 +418,9 @@ Proof. apply frame_inv; [apply set_history_search_frame | apply set_history_sear
 Lemma set_cursor_inv s v : Inv s -> Inv (set_cursor s v).
 Proof. apply frame_inv; [apply set_cursor_frame | apply set_cursor_wi]. Qed.
 
-Lemma history_backward_inv c s n : Inv s -> Inv (history_backward c s n).
+Lemma history_backward_pos_inv c s n : Inv s -> Inv (history_backward_pos c s n).
 Proof.
-  intros HI. unfold history_backward.
+  intros HI. unfold history_backward_pos.
   pose proof (nav_loop_inv c (range_down (wi (set_history_search s) - 1)) (set_history_search s) n false) as H.
   destruct (nav_loop _ _ _ _ _) as [s1 found]; cbn [fst] in H.
   assert (HI' : Inv (set_history_search s)) by (apply set_history_search_inv; exact HI).
@@ -421,9 +429,9 @@ Proof.
   destruct found; [apply set_cursor_inv|]; exact H1.
 Qed.
 
-Lemma history_forward_inv c s n : Inv s -> Inv (history_forward c s n).
+Lemma history_forward_pos_inv c s n : Inv s -> Inv (history_forward_pos c s n).
 Proof.
-  intros HI. unfold history_forward.
+  intros HI. unfold history_forward_pos.
   pose proof (nav_loop_inv c (range_up (wi (set_history_search s) + 1) (len (wl (set_history_search s))))
                 (set_history_search s) n false) as H.
   destruct (nav_loop _ _ _ _ _) as [s1 found]; cbn [fst] in H.
@@ -431,6 +439,18 @@ Proof.
   assert (H1 : Inv s1).
   { apply H; [|exact HI']. intros i Hi. apply in_range_up in Hi. unfold Inv in HI'. lia. }
   destruct found; [do 2 apply set_cursor_inv|]; exact H1.
+Qed.
+
+Lemma history_backward_inv c s n : Inv s -> Inv (history_backward c s n).
+Proof.
+  intros HI. unfold history_backward. destruct (n =? 0); [exact HI|].
+  destruct (n <? 0); [apply history_forward_pos_inv | apply history_backward_pos_inv]; exact HI.
+Qed.
+
+Lemma history_forward_inv c s n : Inv s -> Inv (history_forward c s n).
+Proof.
+  intros HI. unfold history_forward. destruct (n =? 0); [exact HI|].
+  destruct (n <? 0); [apply history_backward_pos_inv | apply history_forward_pos_inv]; exact HI.
 Qed.
 
 Lemma go_to_history_inv c s i : 0 <= i -> Inv s -> Inv (go_to_history c s i).
@@ -442,20 +462,18 @@ Qed.
 Lemma set_pref_inv s v : Inv s -> Inv (set_pref s v).
 Proof. unfold Inv; proj; auto. Qed.
 
-Lemma auto_up_inv c s n g s' : auto_up c s n g = Some s' -> Inv s -> Inv s'.
+Lemma auto_up_inv c s n g : Inv s -> Inv (auto_up c s n g).
 Proof.
-  unfold auto_up, cursor_up. destruct (0 <? _).
-  - destruct (n <? 1); [discriminate|]. intros H HI; inversion H; subst.
-    apply set_pref_inv, set_cursor_inv, HI.
-  - intros H HI; inversion H; subst. destruct g; [apply set_cursor_inv|]; apply history_backward_inv, HI.
+  intros HI. unfold auto_up, cursor_up. destruct (0 <? _).
+  - apply set_pref_inv, set_cursor_inv, HI.
+  - destruct g; [apply set_cursor_inv|]; apply history_backward_inv, HI.
 Qed.
 
-Lemma auto_down_inv c s n g s' : auto_down c s n g = Some s' -> Inv s -> Inv s'.
+Lemma auto_down_inv c s n g : Inv s -> Inv (auto_down c s n g).
 Proof.
-  unfold auto_down, cursor_down. destruct (_ <? _).
-  - destruct (n <? 1); [discriminate|]. intros H HI; inversion H; subst.
-    apply set_pref_inv, set_cursor_inv, HI.
-  - intros H HI; inversion H; subst. destruct g; [apply set_cursor_inv|]; apply history_forward_inv, HI.
+  intros HI. unfold auto_down, cursor_down. destruct (_ <? _).
+  - apply set_pref_inv, set_cursor_inv, HI.
+  - destruct g; [apply set_cursor_inv|]; apply history_forward_inv, HI.
 Qed.
 
 Lemma validate_inv c s sc : Inv s -> Inv (fst (validate c s sc)).
@@ -467,7 +485,7 @@ Proof. apply frame_inv; [apply flush_frame | apply flush_wi]. Qed.
 Lemma append_to_history_lines s : wl (append_to_history s) = wl s /\ wi (append_to_history s) = wi s.
 Proof.
   unfold append_to_history. destruct (text s); [auto|].
-  destruct (ls (store s)); [auto|]. destruct (str_eqb _ _); auto.
+  destruct (ls (ensure_loaded (store s))); [auto|]. destruct (str_eqb _ _); auto.
 Qed.
 
 Lemma append_to_history_inv s : Inv s -> Inv (append_to_history s).
@@ -499,8 +517,8 @@ Proof.
   - apply history_forward_inv, HI.
   - destruct (i <? - len (wl s)) eqn:E; [unfold Inv in HI; lia|].
     cbn [ok fst snd]. apply go_to_history_inv; assumption.
-  - destruct (auto_up c s n gts) eqn:E; cbn [of_opt ok fst snd]; [eapply auto_up_inv; eauto | exact HI].
-  - destruct (auto_down c s n gts) eqn:E; cbn [of_opt ok fst snd]; [eapply auto_down_inv; eauto | exact HI].
+  - apply auto_up_inv, HI.
+  - apply auto_down_inv, HI.
   - unfold end_of_history.
     assert (H1 : Inv (history_forward c s (10 ^ 100))) by (apply history_forward_inv, HI).
     apply go_to_history_inv; [unfold Inv in H1; lia | exact H1].
